@@ -301,6 +301,7 @@ func main() {
 	}
 	workers := common.Atoi(a["--workers"], runtime.NumCPU())
 	doShow := a["--show"] != "" && a["--show"] != "0"
+	cmtStrict = a["--cmt"] != "decl"
 	cueexperiment.Init()
 	debug.SetGCPercent(400)
 	if pf := a["--cpuprofile"]; pf != "" {
